@@ -57,6 +57,8 @@ type Conn struct {
 	local  Addr
 	remote Addr
 
+	linger         int // SO_LINGER seconds (lingerSet)
+	lingerSet      bool
 	rdl, wdl       time.Time
 	rdlTmr, wdlTmr func()
 
@@ -234,6 +236,17 @@ func (c *Conn) Close() error {
 	c.closed = true
 	c.out.wclosed = true
 	c.in.rclosed = true
+	if c.lingerSet && c.linger == 0 {
+		// SO_LINGER 0: close(2) discards whatever is still in the send buffer and sends RST. How much of the
+		// written data had already left is up to the network; the model takes the case the option exists for -
+		// nothing the peer has not read yet had left - so everything still queued is lost.
+		c.out.data = nil
+		c.out.aborted = true
+		c.out.reset = true
+		vrt.Bump()
+		c.logOp("close-linger0", 0, nil)
+		return nil
+	}
 	if len(c.in.data) > 0 {
 		// closing with unread data makes TCP send RST instead of FIN (if a FIN already went out through
 		// CloseWrite the peer still reads EOF first, but its writes fail at once)
@@ -262,6 +275,28 @@ func (c *Conn) Abort() error {
 	c.out.reset = true
 	vrt.Bump()
 	c.logOp("abort", 0, nil)
+	return nil
+}
+
+// Socket options of *net.TCPConn. Only SO_LINGER changes what the model does (see Close).
+func (c *Conn) SetLinger(sec int) error {
+	if c.closed {
+		return &net.OpError{Op: "set", Net: "tcp", Err: net.ErrClosed}
+	}
+	c.lingerSet, c.linger = sec >= 0, sec
+	c.logOp("setlinger", sec, nil)
+	return nil
+}
+func (c *Conn) SetKeepAlive(bool) error                      { return c.optErr() }
+func (c *Conn) SetKeepAlivePeriod(time.Duration) error       { return c.optErr() }
+func (c *Conn) SetKeepAliveConfig(net.KeepAliveConfig) error { return c.optErr() }
+func (c *Conn) SetNoDelay(bool) error                        { return c.optErr() }
+func (c *Conn) SetReadBuffer(int) error                      { return c.optErr() }
+func (c *Conn) SetWriteBuffer(int) error                     { return c.optErr() }
+func (c *Conn) optErr() error {
+	if c.closed {
+		return &net.OpError{Op: "set", Net: "tcp", Err: net.ErrClosed}
+	}
 	return nil
 }
 
